@@ -15,7 +15,10 @@ The run-time side (what may NOT happen for a typed program) is `Surf.Err.wrong`,
 counterpart of vm/src/thread.rs:2749 `Cannot call`, :2312 `GetOffset on`, :2333 `TestTag … non data`
 and of `ice!` in the compiler.
 
-Types are monomorphic (`STy`); records are positional (field `i` of the record's type, the way
+Types are `STy`; contexts map names to (semantic) type schemes `Sch` — sets of types — so the
+system has let-polymorphism of its own: generalisation at `let x = e` (rule `letGen`, no value
+restriction, like gluon), instantiation at variables (rule `var`); lambda-, pattern- and
+`rec`-bound names are monomorphic (`Sch.mono`). Records are positional (field `i` of the record's type, the way
 the compiler resolves field names to offsets, vm/src/core/mod.rs `Projection`); a declaration
 table `D decl tag = some argTypes` stands for the `type T = | C a b | …` declarations in scope.
 -/
@@ -33,9 +36,26 @@ inductive STy where
   /-- a declared variant type (index into the declaration table) -/
   | named (d : Nat)
   | arr (t : STy)
+  /-- a type variable: only the verified checker's annotations and the schemes it builds mention
+      them; no run-time value has the shape of a type variable -/
+  | tvar (n : Nat)
   deriving Repr, Inhabited
 
-abbrev Ctx := List (String × STy)
+/-- monomorphic contexts: what a pattern binds -/
+abbrev MCtx := List (String × STy)
+
+/-- A (semantic) TYPE SCHEME: the set of monomorphic types a let-bound name may be used at. The
+    scheme `forall a b . τ` of check/src/typecheck.rs (`generalize_and_clear_subs`, :2363;
+    typecheck/generalize.rs) stands for the set of all instances of `τ` (`SurfTyCheck.den`). -/
+abbrev Sch := STy → Prop
+
+/-- the scheme of a lambda-/pattern-bound name: exactly one type -/
+def Sch.mono (τ : STy) : Sch := fun t => t = τ
+
+/-- contexts map names to schemes (`Environment` + `stack_var` of check/src/typecheck.rs:330) -/
+abbrev Ctx := List (String × Sch)
+
+def liftCtx (Δ : MCtx) : Ctx := Δ.map fun b => (b.1, Sch.mono b.2)
 
 /-- `D decl tag` = argument types of constructor number `tag` of declared type `decl`. -/
 abbrev Decls := Nat → Nat → Option (List STy)
@@ -45,18 +65,18 @@ def funTy : List STy → STy → STy
   | [], r => r
   | a :: as, r => .fn a (funTy as r)
 
-def lookupCtx : Ctx → String → Option STy
+def lookupCtx {α : Type} : List (String × α) → String → Option α
   | [], _ => none
   | (y, t) :: rest, x => if x = y then some t else lookupCtx rest x
 
 /-- mirror of `Surf.bindParams` on contexts -/
 def bindCtx : List String → List STy → Ctx → Ctx
-  | x :: xs, t :: ts, Γ => bindCtx xs ts ((x, t) :: Γ)
+  | x :: xs, t :: ts, Γ => bindCtx xs ts ((x, Sch.mono t) :: Γ)
   | _, _, Γ => Γ
 
 /-- mirror of `Surf.recEnv` on contexts -/
 def recCtx (group : List (String × List String × Expr)) (τs : List STy) (Γ : Ctx) : Ctx :=
-  ((group.zip τs).map fun (b, t) => (b.1, t)).reverse ++ Γ
+  ((group.zip τs).map fun (b, t) => (b.1, Sch.mono t)).reverse ++ Γ
 
 section
 variable (D : Decls)
@@ -64,7 +84,7 @@ variable (D : Decls)
 /-! ### Patterns: `PatType p τ Δ` — pattern `p` matches values of type `τ` and binds `Δ`
 (in the order `Surf.matchPat` produces the bindings). -/
 mutual
-inductive PatType : Pat → STy → Ctx → Prop
+inductive PatType : Pat → STy → MCtx → Prop
   | wild {τ} : PatType .wild τ []
   | var {x τ} : PatType (.var x) τ [(x, τ)]
   | int {n} : PatType (.int n) .int []
@@ -72,10 +92,10 @@ inductive PatType : Pat → STy → Ctx → Prop
   | ctor {d tag τs ps Δ} : D d tag = some τs → PatsType ps τs Δ → PatType (.ctor tag ps) (.named d) Δ
   | record {fs τs Δ} : FieldsType fs τs Δ → PatType (.record fs) (.recd τs) Δ
   | as {x p τ Δ} : PatType p τ Δ → PatType (.as x p) τ ((x, τ) :: Δ)
-inductive PatsType : List Pat → List STy → Ctx → Prop
+inductive PatsType : List Pat → List STy → MCtx → Prop
   | nil : PatsType [] [] []
   | cons {p ps τ τs Δ₁ Δ₂} : PatType p τ Δ₁ → PatsType ps τs Δ₂ → PatsType (p :: ps) (τ :: τs) (Δ₂ ++ Δ₁)
-inductive FieldsType : List (Nat × Pat) → List STy → Ctx → Prop
+inductive FieldsType : List (Nat × Pat) → List STy → MCtx → Prop
   | nil {τs} : FieldsType [] τs []
   | cons {i p fs τ τs Δ₁ Δ₂} : τs[i]? = some τ → PatType p τ Δ₁ → FieldsType fs τs Δ₂ →
       FieldsType ((i, p) :: fs) τs (Δ₂ ++ Δ₁)
@@ -95,13 +115,23 @@ mutual
 inductive HasType : Ctx → Expr → STy → Prop
   | int {Γ n} : HasType Γ (.int n) .int
   | str {Γ s} : HasType Γ (.str s) .str
-  | var {Γ x τ} : lookupCtx Γ x = some τ → HasType Γ (.var x) τ
+  /-- INSTANTIATION: a name may be used at every type of its scheme (typecheck.rs:1004
+      `Expr::Ident` → `instantiate`) -/
+  | var {Γ x S τ} : lookupCtx Γ x = some S → S τ → HasType Γ (.var x) τ
   | lam {Γ xs body τs ρ τ} : xs ≠ [] → τs.length = xs.length → HasType (bindCtx xs τs Γ) body ρ →
       τ = funTy τs ρ → HasType Γ (.lam xs body) τ
   | app {Γ f args φ σs τ} : HasType Γ f φ → φ = funTy σs τ → HasTypes Γ args σs →
       HasType Γ (.app f args) τ
-  | let_ {Γ p e₁ e₂ σ Δ τ} : HasType Γ e₁ σ → PatType D p σ Δ → HasType (Δ ++ Γ) e₂ τ →
+  | let_ {Γ p e₁ e₂ σ Δ τ} : HasType Γ e₁ σ → PatType D p σ Δ → HasType (liftCtx Δ ++ Γ) e₂ τ →
       HasType Γ (.let_ p e₁ e₂) τ
+  /-- GENERALISATION at `let x = e₁` (typecheck.rs:2183 `typecheck_bindings` →
+      :2363 `generalize_and_clear_subs`): `x` gets a scheme `S`, any non-empty set of types ALL of
+      which `e₁` has in `Γ` (for the syntactic scheme `forall ᾱ . τ₁` with `ᾱ` not free in `Γ`
+      these are the instances of `τ₁`, see `Proofs.inferA_sound`). There is NO value restriction,
+      as in gluon (`let p = [] in (p, p)` is accepted at `forall a b . (Array a, Array b)`): the
+      language is pure and values are type-erased, so one evaluation of `e₁` serves all instances. -/
+  | letGen {Γ x e₁ e₂ S σ τ} : S σ → (∀ τ', S τ' → HasType Γ e₁ τ') → HasType ((x, S) :: Γ) e₂ τ →
+      HasType Γ (.let_ (.var x) e₁ e₂) τ
   | letrec {Γ binds body τs τ} : HasGroup (recCtx binds τs Γ) binds τs →
       HasType (recCtx binds τs Γ) body τ → HasType Γ (.letrec binds body) τ
   | ite {Γ c a b τ} : HasType Γ c .bool → HasType Γ a τ → HasType Γ b τ → HasType Γ (.ite c a b) τ
@@ -126,7 +156,7 @@ inductive HasTypes : Ctx → List Expr → List STy → Prop
   | cons {Γ e es τ τs} : HasType Γ e τ → HasTypes Γ es τs → HasTypes Γ (e :: es) (τ :: τs)
 inductive HasAlts : Ctx → STy → List (Pat × Expr) → STy → Prop
   | nil {Γ σ τ} : HasAlts Γ σ [] τ
-  | cons {Γ σ p e alts Δ τ} : PatType D p σ Δ → HasType (Δ ++ Γ) e τ → HasAlts Γ σ alts τ →
+  | cons {Γ σ p e alts Δ τ} : PatType D p σ Δ → HasType (liftCtx Δ ++ Γ) e τ → HasAlts Γ σ alts τ →
       HasAlts Γ σ ((p, e) :: alts) τ
 /-- the bindings of a `rec` group, all checked in the context `Γ'` that already holds the group;
     every binding is a function (at least one parameter) -/
@@ -164,10 +194,11 @@ inductive HasShapes : List Val → List STy → Prop
 inductive HasShapeAll : List Val → STy → Prop
   | nil {τ} : HasShapeAll [] τ
   | cons {v vs τ} : HasShape v τ → HasShapeAll vs τ → HasShapeAll (v :: vs) τ
-/-- environment `ρ` provides, binding by binding, values of the shapes the context `Γ` promises -/
+/-- environment `ρ` provides, binding by binding, values of the shapes the context `Γ` promises:
+    a value bound to a name with scheme `S` has the shape of EVERY type in `S` -/
 inductive EnvOk : Env → Ctx → Prop
   | nil : EnvOk [] []
-  | cons {x v τ env Γ} : HasShape v τ → EnvOk env Γ → EnvOk ((x, v) :: env) ((x, τ) :: Γ)
+  | cons {x v S env Γ} : (∀ τ, S τ → HasShape v τ) → EnvOk env Γ → EnvOk ((x, v) :: env) ((x, S) :: Γ)
 end
 
 /-- What the REAL checker accepts for a record literal that is checked against an expected record
